@@ -652,7 +652,14 @@ class Array(metaclass=MetaArray):
                 f"{value} needs {info.size} bytes and does not fit in the "
                 f"{self._get_size()} bytes of {self}"
             )
-        self.__class__._to_buffer(self._buffer, self._offset, value, info)
+        # all or nothing: an item that cannot be stored must not leave the
+        # items before it modified
+        saved = self._buffer.to_bytearray(self._offset, self._get_size())
+        try:
+            self.__class__._to_buffer(self._buffer, self._offset, value, info)
+        except Exception:
+            self._buffer.update_from_buffer(self._offset, saved)
+            raise
         if hasattr(info, "offsets"):
             # the items may have moved: refresh what this handle cached
             self._offsets = info.offsets
